@@ -11,14 +11,14 @@ import (
 // real engine receives the JavaScript source this file prints from them (minimal parentheses by the ECMAScript grammar).
 
 // ---- expression constructors ----
-func eNum(v string) J               { return J{"t": "num", "v": v} }
-func eNumSrc(v, src string) J       { return J{"t": "num", "v": v, "src": src} }
-func eStr(v string) J               { return J{"t": "str", "v": v} }
+func eNum(v string) J         { return J{"t": "num", "v": v} }
+func eNumSrc(v, src string) J { return J{"t": "num", "v": v, "src": src} }
+func eStr(v string) J         { return J{"t": "str", "v": v} }
 
 // eStrSp: the same string VALUE, written in the source with escapes: sp = "x" (\xHH for U+0000..U+00FF that are not
 // plain ASCII letters/digits), "u" (\uHHHH for every character outside printable ASCII), "xa" (\xHH for EVERY character
 // below U+0100, letters included), "dq" (double quotes). Model and specification read "v"; only the real parser sees the spelling.
-func eStrSp(v, sp string) J { return J{"t": "str", "v": v, "sp": sp} }
+func eStrSp(v, sp string) J         { return J{"t": "str", "v": v, "sp": sp} }
 func eBool(v bool) J                { return J{"t": "bool", "v": v} }
 func eNull() J                      { return J{"t": "null"} }
 func eId(n string) J                { return J{"t": "id", "n": n} }
